@@ -66,13 +66,15 @@ def _quiet():
     return contextlib.redirect_stdout(io.StringIO())
 
 
-TARGETS = ("gauss", "hole", "corner")
+TARGETS = ("gauss", "hole", "corner", "tiny")
 
 
 class CountingLike:
     """pointwise identical scalar / vectorised likelihood with an evaluation counter (thread-safe).  Targets:
     `gauss` — interior Gaussian;  `hole` — a region of the prior has likelihood 0 (−inf), so the warm-up replacement branch fires;
-    `corner` — a narrow Gaussian in a corner of the prior cube, so proposals leave the cube through its hard boundary."""
+    `corner` — a narrow Gaussian in a corner of the prior cube, so proposals leave the cube through its hard boundary;
+    `tiny` — the likelihood is finite on ~2 % of the prior only, so most warm-up batches of 12-16 draws have NO finite draw and the
+    warm-up branch redraws (`while np.all(np.isinf(logl))`)."""
 
     def __init__(self, blobs=False, target="gauss"):
         if target is True:
@@ -87,6 +89,8 @@ class CountingLike:
             self.f = self.f_hole
         elif target == "corner":
             self.f = self.f_corner
+        elif target == "tiny":
+            self.f = self.f_tiny
 
     @staticmethod
     def f(x):
@@ -99,6 +103,10 @@ class CountingLike:
     @staticmethod
     def f_corner(x):
         return -0.5 * float(np.sum((x - 2.9) ** 2)) * 4.0
+
+    @staticmethod
+    def f_tiny(x):
+        return -0.5 * float(np.sum((x - 0.3) ** 2)) * 2.5 if (abs(x[0] - 0.3) < 0.45 and abs(x[1] - 0.3) < 0.45) else -np.inf
 
     def scalar(self, x):
         with self.lock:
@@ -316,6 +324,13 @@ def _run_inner(strategy, kernel, blobs, seed, n_iter=None, n_total=48, hole="gau
                 clustering=False, sample=kernel, resample="mult", vectorize=st["vectorize"], pool=pool,
                 blobs_dtype=("f8" if blobs else None), n_steps=1, n_max_steps=2)
     trace = []
+    batches = []
+    orig_ll = s._core.mutator.log_likelihood
+
+    def rec_ll(x):
+        batches.append(len(x))
+        return orig_ll(x)
+    s._core.mutator.log_likelihood = rec_ll
     np.random.seed(seed)
     with _quiet(), warnings.catch_warnings():
         warnings.simplefilter("ignore")
@@ -325,7 +340,7 @@ def _run_inner(strategy, kernel, blobs, seed, n_iter=None, n_total=48, hole="gau
         while s._core._not_termination() and k < 40:
             cur = s.sample()
             k += 1
-            trace.append((float(cur["beta"]), int(cur["steps"]), int(cur["calls"]), like.n))
+            trace.append((float(cur["beta"]), int(cur["steps"]), int(cur["calls"]), like.n, len(batches)))
     if hasattr(pool, "terminate"):
         pool.terminate()
         pool.join()
@@ -430,7 +445,7 @@ def run_property_violations(cases, strategies=None, oracles=("calls", "transpare
             if name == "scalar":
                 ref = (fp, trace)
             if "calls" in oracles:
-                for k, (beta, steps, calls, counted) in enumerate(trace):
+                for k, (beta, steps, calls, counted, _nb) in enumerate(trace):
                     if calls != counted:
                         bad.append(dict(base, oracle="calls", what=f"strategy `{name}`, after iteration {k + 1}: state['calls']={calls} but the "
                                         f"user's likelihood was actually evaluated at {counted} points"))
@@ -451,20 +466,29 @@ def calls_correspondence(drv, cases, corr):
     state['calls']; the adaptive step counts against the proved bounds; plus the property oracle, so that a violated property also
     breaks this obligation"""
     lines, recs = [], []
-    for name, kernel, blobs, seed in cases:
+    for case in cases:
+        name, kernel, blobs, seed = case[:4]
+        target = case[4] if len(case) > 4 else "gauss"
         try:
-            _, trace = _run(name, kernel, blobs, seed)
+            _, trace = _run(name, kernel, blobs, seed, hole=target)
         except Exception as e:  # noqa
-            corr.disagree(input=(name, kernel, blobs, seed), impl=f"run raised {type(e).__name__}: {e}", model="runs")
+            corr.disagree(input=case, impl=f"run raised {type(e).__name__}: {e}", model="runs")
             continue
-        ops = []
-        for k, (beta, steps, calls, counted) in enumerate(trace):
-            ops.append("w" if beta == 0.0 else f"m:{steps}")
+        ops, nb_prev = [], 0
+        for k, (beta, steps, calls, counted, nb) in enumerate(trace):
+            # the op-list model counts per evaluated batch: a warm-up iteration with r redraws is r + 1 `w`
+            ops += ["w"] * (nb - nb_prev) if beta == 0.0 else [f"m:{steps}"]
+            if beta == 0.0 and nb - nb_prev > 1:
+                corr.count("warmup_redraws", nb - nb_prev - 1)
+            if beta != 0.0 and nb - nb_prev != steps:
+                corr.disagree(input=case, impl=f"iteration {k + 1}: {nb - nb_prev} batches evaluated in {steps} steps", model="one batch per step")
+            nb_prev = nb
             if beta != 0.0 and not (min(1 * 2, 2 * 2) <= steps <= max(1, 2 * 2)):     # n_steps=1, n_max_steps=2, d=2 in _run
-                corr.disagree(input=(name, kernel, blobs, seed), impl=f"iteration {k + 1}: {steps} accept/reject steps",
+                corr.disagree(input=case, impl=f"iteration {k + 1}: {steps} accept/reject steps",
                               model="within [2, 4] (C13_steps_bounded_from_start)")
             lines.append(f"calls.run np=16 nw=16 ops={';'.join(ops)}")
             recs.append((name, kernel, blobs, seed, k, calls, counted, len(ops) > 1 and "w" in ops and any(o != "w" for o in ops)))
+            corr.count("target:" + target) if k == 0 else None
     for (name, kernel, blobs, seed, k, calls, counted, nontriv), line, ans in zip(recs, lines, drv.batch(lines)):
         corr.case(line + name + kernel, nontriv or name != "scalar")
         corr.count(name)
@@ -790,8 +814,11 @@ def suite_evaluate_likelihood(drv, tier):
 
 # ----------------------------------------------------------------------------- whole runs: run() to completion, resumed runs
 def _full_run(spec, workdir):
-    """Sampler.run() to completion under spec; one record per process: history of `calls`, rows of every batch handed to
-    _log_like, the instrumented likelihood's counter at every commit and at the end"""
+    """Sampler.run() to completion under spec; one record per call of run(): history of `calls`, rows of every batch handed to
+    _log_like, number of batches and the instrumented likelihood's counter at every commit and at the end, and which
+    initialisation the real run_sampling performed.  spec["resume"]:
+      None | "mid" (new sampler, run(resume_state_path=checkpoint)) | "mid-nocalls" (same, `calls` entry removed) |
+      "load_state" (new sampler, load_state(checkpoint) then run()) | "second-run" (the same sampler's run() called again)"""
     from tempest import Sampler
     st = STRATEGIES[spec["strategy"]]
 
@@ -804,20 +831,26 @@ def _full_run(spec, workdir):
                     sample=spec["kernel"], resample=spec.get("resample", "mult"), vectorize=st["vectorize"], pool=pool,
                     blobs_dtype=("f8" if spec["blobs"] else None), n_steps=spec["ns"], n_max_steps=spec["nm"],
                     output_dir=workdir, output_label="c13")
-        sizes, counted_at = [], []
+        obs = {"sizes": [], "counted_at": [], "nb_at": [], "init": []}
         orig = s._core.mutator.log_likelihood
 
         def rec(x):
-            sizes.append(len(x))
+            obs["sizes"].append(len(x))
             return orig(x)
         s._core.mutator.log_likelihood = rec
         orig_commit = s.state.commit_current_to_history
 
         def commit(*a, **k):
-            counted_at.append(like.n)
+            obs["counted_at"].append(like.n)
+            obs["nb_at"].append(len(obs["sizes"]))
             return orig_commit(*a, **k)
         s.state.commit_current_to_history = commit
-        return s, like, sizes, counted_at, pool
+        for name in ("_initialize_fresh", "_initialize_from_resume"):
+            def spy(*a, _o=getattr(s._core, name), _n=name, **k):
+                obs["init"].append(_n)
+                return _o(*a, **k)
+            setattr(s._core, name, spy)
+        return s, like, obs, pool
 
     def finish(pool):
         if hasattr(pool, "terminate"):
@@ -826,27 +859,39 @@ def _full_run(spec, workdir):
         elif hasattr(pool, "shutdown") and not isinstance(pool, NewestFirstExecutor):
             pool.shutdown(wait=False)
 
-    def record(s, like, sizes, counted_at, t0, start, base):
+    def record(s, obs, t0, start, base, n0, b0, have_path, hist_before):
+        """n0 / b0: likelihood counter / number of batches when this call of run() began (same sampler run twice)"""
         hist = s.state
+        kind = "resume" if "_initialize_from_resume" in obs["init"] else ("fresh" if "_initialize_fresh" in obs["init"] else "continued")
         return {"start": start, "t0": t0, "base": base, "beta": [float(b) for b in hist.get_history("beta")],
                 "steps": [int(v) for v in hist.get_history("steps")], "calls": [int(v) for v in hist.get_history("calls")],
-                "final_calls": int(hist.get_current("calls")), "counted": like.n, "counted_at": list(counted_at), "sizes": list(sizes)}
+                "final_calls": int(hist.get_current("calls")), "counted": obs["like"].n - n0,
+                "counted_at": [c - n0 for c in obs["counted_at"][obs["c0"]:]], "nb_at": [v - b0 for v in obs["nb_at"][obs["c0"]:]],
+                "sizes": list(obs["sizes"][b0:]), "start_kind": kind, "have_path": have_path, "hist_before": hist_before}
     out = []
     with int_pool_patched(), _quiet(), warnings.catch_warnings():
         warnings.simplefilter("ignore")
-        s, like, sizes, counted_at, pool = make()
+        s, like, obs, pool = make()
+        obs["like"], obs["c0"] = like, 0
         np.random.seed(spec["seed"])
-        s.run(n_total=spec["n_total"], progress=False, save_every=(spec["save_every"] if spec["resume"] else None))
+        s.run(n_total=spec["n_total"], progress=False, save_every=(spec["save_every"] if spec["resume"] in ("mid", "mid-nocalls", "load_state") else None))
+        out.append(record(s, obs, 0, "fresh", 0, 0, 0, False, 0))
+        if spec["resume"] == "second-run":
+            n0, b0, t0 = like.n, len(obs["sizes"]), len(obs["counted_at"])
+            obs["c0"], obs["init"] = t0, []
+            c_before = int(s.state.get_current("calls"))
+            s.run(n_total=3 * spec["n_total"], progress=False)
+            out.append(record(s, obs, t0, f"cont:{c_before}", n0, n0, b0, False, t0))
         finish(pool)
-        out.append(record(s, like, sizes, counted_at, 0, "fresh", 0))
-        if spec["resume"]:
+        if spec["resume"] in ("mid", "mid-nocalls", "load_state"):
             import dill
             import os
             t = spec["save_every"]
             path = os.path.join(workdir, f"c13_{t}.state")
-            if os.path.exists(path) and len(counted_at) >= t:
-                start = f"resume:{out[0]['calls'][t - 1]}"
-                base = counted_at[t - 1]           # points ACTUALLY evaluated by the first process up to the checkpoint
+            if os.path.exists(path) and len(obs["counted_at"]) >= t:
+                saved = out[0]["calls"][t - 1]
+                base = obs["counted_at"][t - 1]           # points ACTUALLY evaluated by the first process up to the checkpoint
+                start = f"resume:{saved}"
                 if spec["resume"] == "mid-nocalls":
                     with open(path, "rb") as fh:
                         d = dill.load(fh)
@@ -855,16 +900,29 @@ def _full_run(spec, workdir):
                     with open(path, "wb") as fh:
                         dill.dump(d, fh)
                     start, base = "resume:none", None
-                s2, like2, sizes2, counted2, pool2 = make()
+                s2, like2, obs2, pool2 = make()
+                obs2["like"], obs2["c0"] = like2, 0
                 np.random.seed(spec["seed"] + 1)
-                s2.run(n_total=spec["n_total"], progress=False, resume_state_path=path)
+                if spec["resume"] == "load_state":
+                    s2.load_state(path)
+                    start = f"cont:{saved}"
+                    s2.run(n_total=spec["n_total"], progress=False)
+                    out.append(record(s2, obs2, t, start, base, 0, 0, False, t))
+                else:
+                    s2.run(n_total=spec["n_total"], progress=False, resume_state_path=path)
+                    out.append(record(s2, obs2, t, start, base, 0, 0, True, 0))
                 finish(pool2)
-                out.append(record(s2, like2, sizes2, counted2, t, start, base))
     return out
 
 
 def _kinds(rec):
-    return ["w" if b == 0.0 else f"m:{k}" for b, k in zip(rec["beta"], rec["steps"])][rec["t0"]:]
+    """iteration kinds of THIS call of run(): warm-up iterations carry their number of redraws (batches evaluated − 1)"""
+    out, prev = [], 0
+    betas, steps = rec["beta"][rec["t0"]:], rec["steps"][rec["t0"]:]
+    for k, nb in enumerate(rec["nb_at"]):
+        out.append(f"w:{nb - prev - 1}" if betas[k] == 0.0 else f"m:{steps[k]}")
+        prev = nb
+    return out
 
 
 def _whole_runs(specs):
@@ -914,7 +972,7 @@ def whole_run_correspondence(drv, specs, corr):
     """MODEL vs CODE (never a failing input by itself): Model.CallsRun.runSampling on the scripted instance against the history of
     `calls` and the rows of every batch handed to _log_like; the proved step bounds; plus the property oracle, so that a
     violated property also breaks this obligation"""
-    lines, meta = [], []
+    lines, meta, start_lines = [], [], []
     for spec, recs, err in _whole_runs(specs):
         if err is not None:
             corr.disagree(input=spec, impl=f"run raised {type(err).__name__}: {err}", model="runs")
@@ -924,8 +982,10 @@ def whole_run_correspondence(drv, specs, corr):
         for rec in recs:
             ops = _kinds(rec)
             d = 2
+            start_lines.append((f"start.kind path={int(rec['have_path'])} hist={rec['hist_before']}", rec["start_kind"], spec))
+            corr.count("warmup_redraws", sum(int(o[2:]) for o in ops if o.startswith("w:")))
             for k, op in enumerate(ops):
-                if op != "w":
+                if not op.startswith("w"):
                     steps = int(op[2:])
                     if not (min(spec["ns"] * d, spec["nm"] * d) <= steps <= max(1, spec["nm"] * d)):
                         corr.disagree(input=spec, impl=f"iteration {rec['t0'] + k + 1}: {steps} accept/reject steps",
@@ -941,7 +1001,8 @@ def whole_run_correspondence(drv, specs, corr):
         ops = line.split("ops=")[1]
         corr.case((line, spec["strategy"], spec["kernel"]), "w" in ops and "m:" in ops)
         corr.count("strategy:" + spec["strategy"])
-        corr.count("start:" + rec["start"].split(":")[0] + (":none" if rec["start"].endswith("none") else ""))
+        corr.count("start:" + rec["start"].split(":")[0] + (":none" if rec["start"].endswith("none") else "")
+                   + (":" + str(spec["resume"]) if rec["start"].startswith("cont") else ""))
         if k == nops - 1:
             corr.count("runs")
             corr.count("target:" + spec["target"])
@@ -951,6 +1012,11 @@ def whole_run_correspondence(drv, specs, corr):
         elif msizes != rec["sizes"][:nb] or (k == nops - 1 and len(rec["sizes"]) != nb):
             corr.disagree(input=line, impl={"rows of the batches handed to _log_like": rec["sizes"][:nb + 2]}, model=ans, spec=spec,
                           kind="model-vs-code")
+    for (line, kind, spec), ans in zip(start_lines, drv.batch([x[0] for x in start_lines])):
+        corr.case((line, kind), kind != "fresh")
+        corr.count("start-kind:" + kind)
+        if ans != kind:
+            corr.disagree(input=line, impl=f"run_sampling initialised as `{kind}`", model=ans, spec=spec, kind="model-vs-code")
     if lines:
         corr.sample({"op": lines[-1], "impl_calls": meta[-1][1]["final_calls"], "counted": meta[-1][1]["counted"], "spec": meta[-1][0]})
 
@@ -958,13 +1024,16 @@ def whole_run_correspondence(drv, specs, corr):
 def _whole_run_specs(rng, tier):
     specs = []
     base = [("scalar", "tpcn", False, "gauss", None), ("vector", "rwm", False, "hole", None), ("pool=3", "tpcn", True, "hole", "mid"),
-            ("shuffled", "rwm", True, "corner", "mid"), ("threaded", "tpcn", False, "hole", "mid-nocalls"), ("generator", "rwm", False, "gauss", None),
+            ("shuffled", "rwm", True, "corner", "mid"), ("threaded", "tpcn", False, "hole", "mid-nocalls"), ("generator", "rwm", False, "tiny", None),
             ("vector+sized", "tpcn", False, "corner", "mid"), ("executor-newest-first", "rwm", False, "hole", None),
-            ("pool=True", "tpcn", True, "gauss", "mid-nocalls"), ("sized", "rwm", False, "hole", "mid"), ("mp-like", "tpcn", True, "corner", "mid"),
-            ("threadpool", "rwm", True, "hole", None), ("pool=7", "rwm", False, "corner", None), ("scalar", "rwm", True, "corner", "mid")]
+            ("pool=True", "tpcn", True, "gauss", "mid-nocalls"), ("sized", "rwm", False, "tiny", "mid"), ("mp-like", "tpcn", True, "corner", "mid"),
+            ("threadpool", "rwm", True, "hole", None), ("pool=7", "rwm", False, "corner", None), ("scalar", "rwm", True, "corner", "mid"),
+            ("scalar", "tpcn", False, "tiny", "load_state"), ("vector", "rwm", False, "tiny", "second-run"),
+            ("pool=2", "tpcn", True, "tiny", "second-run"), ("reversed", "rwm", True, "tiny", "load_state"),
+            ("vector+pool=3", "tpcn", False, "tiny", "mid")]
     if tier == "thorough":
         base += [(n, k, b, h, r) for n in STRATEGIES for k in ("tpcn", "rwm") for b in (False, True) for h in TARGETS
-                 for r in (None, "mid") if not (n.startswith("vector") and b)][::5]
+                 for r in (None, "mid", "load_state", "second-run") if not (n.startswith("vector") and b)][::11]
     for i, (strategy, kernel, blobs, target, resume) in enumerate(base):
         ns = rng.choice([1, 1, 2, 3])
         specs.append({"strategy": strategy, "kernel": kernel, "blobs": blobs, "target": target, "resume": resume, "seed": rng.randrange(2 ** 31),
@@ -1038,7 +1107,7 @@ def correspond(tier):
            suite_evaluate_likelihood(drv, tier), suite_pipeline_strategies(drv, tier)]
     c = Corr("strategy-transparency", "exact (bit-identical fingerprints of paired seeded runs; calls == points evaluated on every run)")
     cases = [("tpcn", False, rng.randrange(2 ** 31), "gauss"), ("rwm", True, rng.randrange(2 ** 31), "hole"),
-             ("tpcn", False, rng.randrange(2 ** 31), "corner")]
+             ("tpcn", False, rng.randrange(2 ** 31), "corner"), ("rwm", False, rng.randrange(2 ** 31), "tiny")]
     if tier == "thorough":
         cases += [(k, b, rng.randrange(2 ** 31), h) for k in ("tpcn", "rwm") for b in (False, True) for h in TARGETS]
     for case in cases:
@@ -1056,6 +1125,8 @@ def correspond(tier):
               [("scalar", "tpcn", False), ("vector", "rwm", False), ("threaded", "tpcn", True), ("pool=1", "rwm", True), ("generator", "tpcn", False),
                ("vector+sized", "tpcn", False), ("vector+threadpool", "rwm", False), ("sized", "rwm", True),
                ("executor-newest-first", "tpcn", True), ("pool=3", "rwm", True), ("vector+pool=3", "tpcn", False)]]
+    ccases += [(n, k, b, rng.randrange(2 ** 31), "tiny") for n, k, b in
+               [("scalar", "rwm", False), ("vector", "tpcn", False), ("pool=3", "tpcn", True), ("mp-like", "rwm", True), ("vector+sized", "rwm", False)]]
     if tier == "thorough":
         ccases += [(n, k, b, rng.randrange(2 ** 31)) for n in STRATEGIES for k in ("tpcn", "rwm") for b in (False, True) if not (n.startswith("vector") and b)]
     calls_correspondence(drv, ccases, c2)
@@ -1072,13 +1143,14 @@ def search(tier, hints):
     (2) histories / weights / evidence of a run under some strategy differ from the run under scalar evaluation for the same seed.
     A disagreement between model and code is NOT a failing input; it only triggers this exploration: every strategy (scalar,
     vectorised, vectorised+pool, int pools of several sizes, pool doubles, real thread pools / executors) x both kernels x blobs x
-    targets {interior Gaussian, -inf region (warm-up replacement), narrow corner target (proposals leave the prior cube)}, then
-    complete runs incl. runs resumed from a checkpoint.  Nothing found => the verdict is `no-failing-input-found`."""
+    targets {interior Gaussian, -inf region (warm-up replacement), narrow corner target (proposals leave the prior cube), tiny support
+    (warm-up batches without a finite draw: the redraw loop)}, then complete runs incl. runs resumed from a checkpoint (by path and by
+    load_state) and a second run() on the same sampler.  Nothing found => the verdict is `no-failing-input-found`."""
     rng = common.rng_for("C13.search")
     hinted = [h.get("strategy") or (h.get("spec") or {}).get("strategy") for h in hints if isinstance(h, dict)]
     order = [n for n in STRATEGIES if n in hinted] + [n for n in STRATEGIES if n not in hinted]
     found = []
-    for target in ("corner", "hole", "gauss"):
+    for target in ("tiny", "corner", "hole", "gauss"):
         for kernel in ("tpcn", "rwm"):
             for blobs in (False, True):
                 found += run_property_violations([(kernel, blobs, rng.randrange(2 ** 31), target)], strategies=order)
